@@ -61,7 +61,7 @@ Qed.
 (* the load graph over the names files are known by *)
 Definition nedge (c p : string) : Prop :=
   exists idc d k u id, lookup c = Some idc /\ In d (content idc) /\ dir_load d = Some (k, u) /\
-    resolve_name (probe_names (relative c u) (cands k)) = Some (p, id).
+    resolve_name (find_names c k u) = Some (p, id).
 
 Variable root : string.
 
@@ -89,9 +89,9 @@ Definition spec_load (loadf : bool -> string -> kind -> string -> state -> res) 
 Lemma find_file_cases cur k u s :
   match find_file orc cur k u s with
   | LFile p id s1 => loading s1 = p :: loading s /\ mem p (loading s) = false
-                     /\ resolve_name (probe_names (relative cur u) (cands k)) = Some (p, id)
+                     /\ resolve_name (find_names cur k u) = Some (p, id)
   | LNone s1 => loading s1 = loading s
-  | LErr (ELoop _) _ => exists p id, resolve_name (probe_names (relative cur u) (cands k)) = Some (p, id)
+  | LErr (ELoop _) _ => exists p id, resolve_name (find_names cur k u) = Some (p, id)
                                      /\ mem p (loading s) = true
   | LErr _ _ => True
   end.
@@ -312,8 +312,8 @@ Proof.
   induction n as [|n IH]; intros s Hs; [reflexivity|].
   destruct s as [l c o i cl tr]. cbn in Hs. subst l.
   cbn [load]. unfold find_file.
-  change (probe_names (relative "a.scss" "a") (cands KLoadCss))
-    with (ltac:(let v := eval vm_compute in (probe_names (relative "a.scss" "a") (cands KLoadCss)) in exact v)).
+  change (find_names "a.scss" KLoadCss "a")
+    with (ltac:(let v := eval vm_compute in (find_names "a.scss" KLoadCss "a") in exact v)).
   cbn. rewrite IH; reflexivity.
 Qed.
 
@@ -322,8 +322,8 @@ Lemma refuted_loadcss : forall n,
 Proof.
   intros [|n]; [reflexivity|]. unfold run. cbn [assoc_body w_loadcss String.eqb Ascii.eqb Bool.eqb exec_body].
   cbn [load]. unfold find_file.
-  change (probe_names (relative "t.scss" "a") (cands KLoadCss))
-    with (ltac:(let v := eval vm_compute in (probe_names (relative "t.scss" "a") (cands KLoadCss)) in exact v)).
+  change (find_names "t.scss" KLoadCss "a")
+    with (ltac:(let v := eval vm_compute in (find_names "t.scss" KLoadCss "a") in exact v)).
   cbn. rewrite loadcss_step; reflexivity.
 Qed.
 
@@ -435,8 +435,9 @@ Lemma app_nil_r_str (s : string) : (s ++ "")%string = s.
 Proof. induction s; cbn; congruence. Qed.
 
 Lemma probe_key k :
-  probe_names (relative (key k) "./t") (cands KImport) = map (fun suf => (dots (S k) ++ suf)%string) suffixes.
+  exists rest, find_names (key k) KImport "./t" = map (fun suf => (dots (S k) ++ suf)%string) suffixes ++ rest.
 Proof.
+  unfold find_names. eexists. f_equal.
   unfold relative, key. rewrite split_dir_dots. cbn [fst]. change (fst (split_dir "t.scss")) with "".
   rewrite app_nil_r_str. change "./t" with ("./" ++ "t")%string. rewrite (dots_shift k "t").
   unfold probe_names. rewrite not_direct, split_dir_dots.
@@ -455,7 +456,7 @@ Lemma find_step k s : inv5 k s ->
   exists s1, find_file (orc_of lk) (key k) KImport "./t" s = LFile (key (S k)) "t.scss" s1
              /\ loading s1 = key (S k) :: loading s.
 Proof.
-  intros I. unfold find_file. rewrite probe_key. unfold suffixes. cbn [map].
+  intros I. unfold find_file. destruct (probe_key k) as [rest ->]. unfold suffixes. cbn [map app].
   rewrite (try3 lk s _ _ _ _ "t.scss").
   - fold (key (S k)).
     assert (K : known_format (key (S k)) = true).
